@@ -988,6 +988,8 @@ func (t *apTr) run(o *out, v *V) {
 
 func engineApiProg(cfg config, o *out) {
 	schemas := loadSchemas()
+	cc := newClassCov("apiprog")
+	defer cc.emit(o)
 	for _, si := range schemas {
 		o.raw("SCHEMA\t" + si.id + "\t=\t" + si.sexp())
 		r := newRng(cfg.seed, "apiprog/"+si.id)
@@ -1056,6 +1058,7 @@ func engineApiProg(cfg config, o *out) {
 			o.kase("@APIDEF", arg(prog), "ok")
 			o.kase("APIPROG", arg("all", "eqb"), "same")
 			o.count("types_fully_translated")
+			cc.message(si, mi)
 
 			// the interpreter on the translated methods against the running code: the states of the reflection engines
 			// (empty, populated incl. nil list elements / map values / wrappers holding nil, unknown fields) and the nil receiver
